@@ -20,8 +20,9 @@ Correspondence (see notes/prover_C07_TIE.md), one ray (i, j) of real arim object
 Outcomes are compared exactly in kind: Ok None / Ok value / Raise EAssert | EValue | EIndex | EAttr | ENotImpl | EHelper
 (AssertionError outside the per-interface helpers / ValueError / IndexError / AttributeError / NotImplementedError /
 AssertionError or TypeError inside the helpers), and all the discrete content (which Points object, kind, transmission or
-reflection, which material, side flags, orders, lengths, modes) exactly.  The ray-geometry record of the model (`raygeom`:
-numinterfaces, fermat velocities, inc_leg_size(1..n), conventional_inc_angle / conventional_out_angle(1..n-1)) is READ from
+reflection, which material, side flags, orders, lengths, modes, which velocities are None) exactly.  The ray-geometry record
+of the model (`raygeom`: numinterfaces, fermat velocities, inc_leg_size(1..n), conventional_inc_angle(1..n) — the LAST
+interface included, which a path longer than the ray geometry reads — and conventional_out_angle(0..n-1)) is READ from
 the real RayGeometry object for the ray (i, j) and moved around by the model; after a reversal it is compared bit for bit
 (as exact rationals of the binary64 numbers) with what RayGeometry.from_path(path.reverse()) answers.
 
@@ -35,11 +36,12 @@ A second, small family uses a stub ray geometry (the accessor protocol only) to 
 cannot reach (numinterfaces < 2, velocity tuples shorter than the path).
 
 Restrictions kept on purpose (the model does not describe these; see the final report of the tie):
-  * fluids have transverse_vel=None (the domain of Model/Interface.v);
-  * materials' state_of_matter is consistent with the interface kinds (the state asserts of the helpers are not modelled);
-  * cases where a fluid's transverse velocity (None) is used by reverse_transmission_reflection_for_path BEFORE the
-    per-interface helper is entered, together with an invalid unit / kind None / missing reflection_against, are
-    counted and excluded (see `_tnone_corner`).
+  * fluids have transverse_vel=None (the domain of Model/Interface.v); solids have a transverse velocity or None (the
+    helpers then raise TypeError where the solid's transverse velocity is read: class EHelper);
+  * materials' state_of_matter is consistent with the interface kinds (the state asserts of the helpers are not modelled).
+A None velocity (the T mode in a fluid) used by reverse_transmission_reflection_for_path BEFORE the per-interface helper is
+entered (TypeError of snell_angles), together with an invalid unit / kind None / missing reflection_against, is generated
+and compared (the model raises EHelper first, as the library does).
 """
 import fractions
 import math
@@ -83,11 +85,11 @@ Definition show_path (p : ppath Q) : list Q :=
   ++ match pp_rays p with None => [zq 0%Z] | Some r => zq 1%Z :: show_rg r end.
 Definition show_out {A} (f : A -> list Q) (r : outcome A) : list Q :=
   match r with Ok a => zq 1%Z :: f a | Raise e => [zq (ecode e)] end.
-(* velocities: an expected entry -1 stands for Python's None (a fluid's transverse velocity): not compared *)
-Fixpoint vel_ok (m e : list Q) : bool :=
+(* velocities: an expected entry -1 stands for Python's None (a fluid's transverse velocity): the model's entry is None *)
+Fixpoint vel_ok (m : list (option Q)) (e : list Q) : bool :=
   match m, e with
   | [], [] => true
-  | x :: m', y :: e' => (Qeq_bool y (zq (-1)%Z) || Qeq_bool x y) && vel_ok m' e'
+  | x :: m', y :: e' => match x with None => Qeq_bool y (zq (-1)%Z) | Some v => Qeq_bool v y end && vel_ok m' e'
   | _, _ => false
   end.
 Definition tol : Q := 1 # 100000000000.          (* coefficients: 1e-11 relative (differences of nearly equal impedance ratios amplify the roundings) *)
@@ -131,7 +133,7 @@ Definition lift1 {A} (r : outcome A) : outcome (option A) := match r with Ok a =
 (* helper stream: transmission_call / reflection_call at angle 0 *)
 Definition chk_helper (c : bool * option ikind * pmaterial Q * option (pmaterial Q) * wmode * wmode * bool * string * Z * (Q * Q)) : bool :=
   let '(refl, kind, m_inc, m_oth, mi, mo, fc, u, code, v) := c in
-  let dummy := mkPMat 1 1 1 None None in
+  let dummy := mkPMat 1 1 (Some 1) None None in
   if fc then
     out_c (lift1 (if refl then reflection_call C (cre NumQ) kind m_inc m_oth mi mo (cre NumQ 0) (parse_unit u)
                   else transmission_call C (cre NumQ) kind m_inc (match m_oth with Some m => m | None => dummy end) mi mo (cre NumQ 0) (parse_unit u))) code v
@@ -281,8 +283,8 @@ class Mat:
                                      transverse_att=law(attt))
 
     def coq(self):
-        vt = 7 if self.vt is None else self.vt        # not representable: any number (every use ends in EHelper)
-        return f"(mkPMat {cQ(self.rho)} {cQ(self.vl)} {cQ(vt)} {law_coq(self.attl)} {law_coq(self.attt)})"
+        vt = "None" if self.vt is None else f"(Some {cQ(self.vt)})"       # transverse_vel None: pm_vt = None
+        return f"(mkPMat {cQ(self.rho)} {cQ(self.vl)} {vt} {law_coq(self.attl)} {law_coq(self.attt)})"
 
     def desc(self):
         return dict(density=float(self.rho), longitudinal_vel=float(self.vl), transverse_vel=None if self.vt is None else float(self.vt),
@@ -440,17 +442,18 @@ def axis_flags(zs, k):
     return inc, out
 
 
-def read_rg(rg, i, j, angles=True, extended=False):
+def read_rg(rg, i, j, angles=True):
     """(numinterfaces, vel, leg, inc, out) READ from a RayGeometry-like object for the ray (i, j), as exact rationals of
-    the binary64 answers; `extended`: also the incidence angle at the last interface (what a longer path would read)."""
+    the binary64 answers: inc_leg_size(1..n), conventional_inc_angle(1..n) (the last interface included),
+    conventional_out_angle(0..n-1) (the first interface included)."""
     nI = rg.numinterfaces
     n = nI - 1
     vel = [Fr(float(v)) for v in rg.rays.fermat_path.velocities]
     leg = [Fr(float(rg.inc_leg_size(k)[i, j])) for k in range(1, n + 1)]
     inc, out = [], []
     if angles:
-        inc = [Fr(float(rg.conventional_inc_angle(k)[i, j])) for k in range(1, n + (1 if extended else 0))]
-        out = [Fr(float(rg.conventional_out_angle(k)[i, j])) for k in range(1, n)]
+        inc = [Fr(float(rg.conventional_inc_angle(k)[i, j])) for k in range(1, n + 1)]
+        out = [Fr(float(rg.conventional_out_angle(k)[i, j])) for k in range(0, n)]
     return nI, vel, leg, inc, out
 
 
@@ -690,7 +693,8 @@ class Tie:
         rays_lit = None
         l_ifcs, l_mats, l_modes = ifcs, mats, modes
         if code == 1:
-            fully = all(x.inc is not None and x.out is not None for x in ifcs[1:-1])
+            # the angles RayGeometry can answer: inc flags of the interfaces 1..n, out flags of 0..n-1
+            fully = all(x.inc is not None for x in ifcs[1:]) and all(x.out is not None for x in ifcs[:-1])
             i = j = 0
             if rng.random() < 0.8:
                 d = [int(rng.integers(0, len(p))) for p in pts]
@@ -774,6 +778,14 @@ class Tie:
                 m_inc, m_oth = pool.solid(), (pool.fluid() if rng.random() < 0.7 else pool.solid())
             else:
                 m_inc, m_oth = pool.solid(), pool.fluid()
+        solid_vt = "given"
+        if rng.random() < 0.08 and kind is not None:
+            # the material in the solid role without transverse velocity: TypeError inside the helper (class EHelper)
+            nov = Mat(arim, pool.rho(), dy(rng, 1, 8), None, True, rng=rng)
+            if kind == "solid_fluid":
+                m_inc, solid_vt = nov, "None"
+            elif m_oth is not None:
+                m_oth, solid_vt = nov, "None"
         mi, mo = ("L" if rng.random() < 0.6 else "T"), ("L" if rng.random() < 0.6 else "T")
         fc = bool(rng.random() < 0.6)
         bad = rng.random() < 0.15
@@ -809,7 +821,8 @@ class Tie:
         oth = "None" if m_oth is None else f"(Some {m_oth.coq()})"
         lit = (f"({cbool(refl)}, {KIND[kind]}, {m_inc.coq()}, {oth}, {MODE[mi]}, {MODE[mo]}, {cbool(fc)}, {cstr(unit)}, "
                f"{cZ(code)}, {cv})")
-        self.add("helper", lit, replay, ("reflection" if refl else "transmission") + ":" + ENAME[code].split(" (")[0])
+        self.add("helper", lit, replay, ("reflection" if refl else "transmission") + ":" + ENAME[code].split(" (")[0]
+                 + ("" if solid_vt == "given" else ":solid without transverse velocity"))
 
     # ---- stacks along an axis: paths for the tr / att streams, ray geometries for bs ------------------
     def stack(self, L, single=False, att=False, perturb=()):
@@ -833,6 +846,11 @@ class Tie:
                 mats.append(shared_s if st[k] else shared_f)
             else:
                 mats.append(pool.solid(att) if st[k] else pool.fluid(att))
+        if "solid_vt_none" in perturb:
+            sl = [k for k in range(nlegs) if st[k]]
+            if sl:
+                # a solid leg whose material has transverse_vel=None
+                mats[sl[int(rng.integers(0, len(sl)))]] = Mat(arim, pool.rho(), dy(rng, 1, 8), None, True, rng=rng)
         # modes
         u = rng.random()
         if u < 0.5:
@@ -910,18 +928,20 @@ class Tie:
         return arim.Path(tuple(x.obj for x in S["ifcs"][:nP]), tuple(m.obj for m in S["mats"][:nP - 1]),
                          tuple(mode_arg(arim, rng, m) for m in S["modes"][:nP - 1]))
 
-    PERTURB = ["tr_none", "kind_none", "against_none", "bad_unit", "mode_T_in_fluid", "short_rg", "short_tuples"]
+    PERTURB = ["tr_none", "kind_none", "against_none", "bad_unit", "mode_T_in_fluid", "short_rg", "short_tuples", "solid_vt_none",
+               "mode_T_in_fluid"]
 
-    def _tnone_corner(self, S, nP, nR, l_mats, l_modes, unit_bad):
-        """True when reverse_transmission_reflection_for_path would hand a fluid's transverse velocity (None) to
-        snell_angles BEFORE the helper's own checks while another error of the same interface is pending: the order of
-        these two errors is not representable in the model (pm_vt of a fluid is 'any number')."""
+    def none_velocity_first(self, S, nP, nR, l_mats, l_modes, unit_bad):
+        """Input class (for the counts only; nothing is excluded): reverse_transmission_reflection_for_path hands a None
+        velocity to snell_angles BEFORE the helper's own checks while another error of the same interface is pending."""
         for i in range(1, nP - 1):
             x = S["ifcs"][i]
-            if x.tr is None or i >= len(l_modes) or i >= len(l_mats) or i >= nR:
+            if x.tr is None or i >= len(l_modes) or i >= len(l_mats) or i > nR - 1:
                 return False                 # the loop stops here anyway (assert / IndexError)
             mode_inc, m_inc, mode_out = l_modes[i], l_mats[i], l_modes[i - 1]
             if x.tr == "transmission":
+                if x.kind is None:
+                    return False             # interface.kind.reverse() raises before snell_angles
                 m_out = l_mats[i - 1]
                 uses_none = (mode_out == "T" and m_out.vt is None) or (mode_inc == "T" and m_inc.vt is None)
                 pending = unit_bad
@@ -942,6 +962,9 @@ class Tie:
             perturb.append(self.PERTURB[int(rng.integers(0, len(self.PERTURB)))])
             if u > 0.85:
                 perturb.append(self.PERTURB[int(rng.integers(0, len(self.PERTURB)))])
+        if "mode_T_in_fluid" in perturb and rng.random() < 0.5:
+            # the T mode in a fluid TOGETHER with another error: the order of the exceptions of the reverse function
+            perturb.append(["bad_unit", "kind_none", "against_none"][int(rng.integers(0, 3))])
         nP = int(rng.choice([2, 3, 3, 3, 4, 4, 4, 5, 5, 6]))
         nR = nP
         v = rng.random()
@@ -954,8 +977,7 @@ class Tie:
         i, j = S["d"][0], S["d"][nR - 1]
         path = self.make_path(S, nP)
         rg, _ = self.real_rg(S, nR)
-        ext = nP > nR
-        nI_, vel, leg, inc, out = read_rg(rg, i, j, angles=True, extended=ext)
+        nI_, vel, leg, inc, out = read_rg(rg, i, j, angles=True)
         l_mats, l_modes = S["mats"][:nP - 1], S["modes"][:nP - 1]
         if "short_tuples" in perturb and nP > 2:
             if rng.random() < 0.5:
@@ -973,10 +995,8 @@ class Tie:
             unit = rand_unit(rng, bad)
             fn = model.reverse_transmission_reflection_for_path if rv else model.transmission_reflection_for_path
             kinds = ",".join(sorted(set(perturb))) or "valid"
-            if rv and self._tnone_corner(S, nP, nR, l_mats, l_modes, bad):
-                self.chk.count(tie_C07="tr:excluded (fluid transverse velocity None used before a pending error)")
-                self.skipped += 1
-                continue
+            if rv and self.none_velocity_first(S, nP, nR, l_mats, l_modes, bad):
+                kinds += ":None velocity before a pending error"
             s = int(rng.integers(0, 3))
             if s == 0:
                 call = lambda: fn(path, rg, fc, unit)                              # noqa: E731
@@ -1077,8 +1097,8 @@ class Tie:
             return max(0, k + int(rng.choice([0, 0, 0, -1, -1, 1])))
         vel = [dy(rng, 0.5, 8) for _ in range(ln(n))]
         leg = [dy(rng, 0.25, 8) for _ in range(ln(n))]
-        inc = [Fr(0)] * ln(max(n - 1, 0))
-        out = [Fr(0)] * max(n - 1, 0)
+        inc = [Fr(0)] * ln(n)
+        out = [Fr(0)] * n
         rg = StubRG(nI, vel, leg, inc, out)
         rec = dict(stub=True, numinterfaces=nI, velocities=[float(x) for x in vel], legs=[float(x) for x in leg], inc=[0.0] * len(inc))
         return rg, rg_coq(nI, vel, leg, inc, out), rec
@@ -1180,12 +1200,12 @@ class Tie:
         self.iface_case(Ifc(0, pts[0], oris[0], None, "reflection", None, None, None), kind="note")
         self.iface_case(Ifc(0, pts[0], oris[0], None, "transmission", couplant, None, None), kind="note")
 
-        def run_tr(specs, modes, units, fcs=(True,), mutate_against=None, kindname="note"):
+        def run_tr(specs, modes, units, fcs=(True,), mutate_against=None, kindname="note", mats=None):
             ifcs = mk(specs, axis=True)
             if mutate_against is not None:
                 ifcs[mutate_against].obj.reflection_against = None
                 ifcs[mutate_against].against = None
-            mats = [couplant, block, block][:len(specs) - 1]
+            mats = [couplant, block, block][:len(specs) - 1] if mats is None else mats
             path = arim.Path([x.obj for x in ifcs], [m.obj for m in mats], modes)
             S = dict(pts=[x.points for x in ifcs], d=[0] * len(ifcs), ifcs=ifcs)
             vels = [Fr(1), Fr(2), Fr(2)][:len(specs) - 1]
@@ -1220,8 +1240,14 @@ class Tie:
         run_tr(base, LLL, ["stress"], mutate_against=2)
         # kind None on a reflection
         run_tr([base[0], base[1], (None, "reflection", couplant, False, False), base[3]], LLL, ["stress"])
-        # 16: mode T in the couplant (valid unit: the order against a pending error is not representable, see _tnone_corner)
-        run_tr(base, ["T", "L", "L"], ["stress", "displacement"])
+        # 16: mode T in the couplant: the reverse function raises the TypeError of snell_angles before the helper's checks
+        # (an invalid unit, kind None on the reflection, a missing reflection_against included)
+        run_tr(base, ["T", "L", "L"], ["stress", "displacement", "pressure"], fcs=(True, False))
+        run_tr([base[0], base[1], (None, "reflection", couplant, False, False), base[3]], ["L", "T", "L"], ["stress", "pressure"])
+        run_tr([(None, None, None, None, True), ("fluid_solid", "reflection", block, True, False), (None, None, None, True, None)],
+               ["L", "T"], ["stress", "", "displacement"], mats=[couplant, couplant])
+        run_tr([(None, None, None, None, True), ("fluid_solid", "reflection", block, True, False), (None, None, None, True, None)],
+               ["T", "L"], ["stress", "pressure"], mats=[couplant, couplant], mutate_against=1)
         # 18-19 beamspread, 20 attenuation on pLL / pLT
         nI_, vel, leg, inc, out = recLL
         self.bs_emit(rgLL, 0, 0, rg_coq(nI_, vel, leg, inc, out), dict(note_example=True, legs=[float(x) for x in leg]), "note")
